@@ -3,7 +3,6 @@ package main
 import (
 	"encoding/json"
 	"os"
-	"os/exec"
 	"time"
 	_ "time/tzdata"
 
@@ -67,33 +66,33 @@ func runTimeChild(casesPath, outPath string) {
 func runTime(casesPath, obsPath string) {
 	cases := readCases[timeCase](casesPath)
 	per := map[string][]tzObs{}
-	self, err := os.Executable()
-	if err != nil {
-		lib.Fatal("%v", err)
-	}
 	type result struct {
-		tz   string
-		path string
-		err  error
-		out  []byte
+		tz    string
+		path  string
+		crash *crash
 	}
 	ch := make(chan result, len(timeZones))
 	for i, tz := range timeZones {
 		go func(i int, tz string) {
 			out := obsPath + ".tz" + string(rune('0'+i))
-			cmd := exec.Command(self, "timechild", casesPath, out)
-			cmd.Env = append(os.Environ(), "TZ="+tz)
-			b, err := cmd.CombinedOutput()
-			ch <- result{tz, out, err, b}
+			c := runChild([]string{"TZ=" + tz}, "timechild", casesPath, out)
+			ch <- result{tz, out, c}
 		}(i, tz)
 	}
 	results := map[string]result{}
+	var crashed *crash
 	for range timeZones {
 		r := <-ch
-		if r.err != nil {
-			lib.Fatal("time child TZ=%s: %v\n%s", r.tz, r.err, r.out)
+		if r.crash != nil {
+			crashed = r.crash
 		}
 		results[r.tz] = r
+	}
+	if crashed != nil {
+		w := newLineWriter(obsPath)
+		w.Write(map[string]any{"id": "crash:timechild", "kind": "crash", "part": "timechild", "fatal": crashed.Fatal, "site": crashed.Site})
+		w.Close()
+		return
 	}
 	for _, tz := range timeZones {
 		r := results[tz]
